@@ -396,7 +396,7 @@ def _has_zero_leaf(t, depth=0):
     return False
 
 
-@rule("R-KEY-DECLARED", ["C16", "C14", "C13", "C10", "C08"])
+@rule("R-KEY-DECLARED", ["C16", "C14", "C13", "C10", "C08", "C05"])
 def r_key_declared(cx):
     """every parameter key an operator reads at apply time is one its constructor declares (gamut), stores, or one of
     the implicit keys: a key that nobody declares can never be set, so the option it stands for is silently ignored"""
@@ -433,6 +433,88 @@ def r_key_declared(cx):
                       "%s: %s reads %s[%r], but the gamut of %s declares no such key and the constructor never stores it: "
                       "the option can never be set and is silently ignored (declared: %s)" % (
                           c.names[0], fname, m, key, c.path, sorted(flags)[:8]), cx.where(f.term(bb)["span"]))
+    # the same for the constructors themselves: a key a constructor reads through an accessor (`params.ellps(1)`,
+    # `params.lat(2)`) and that its own gamut does not declare (nor the constructor stores) always comes back as the
+    # accessor's built-in default - e.g. GRS80, whatever ellipsoid the user asked for
+    reg = cx.registry()
+    m_ = 0
+    for cpath, c in sorted(reg.ctors.items()):
+        if "pipeline" in c.names or c.gamut is None:
+            continue
+        g, flags, optional = K.gamut_guarantees(c.gamut)
+        declared = {k for (_m, k) in g} | set(flags) | {k for (_m, k) in optional} | implicit_flags | set(K.implicit_reals(cx.f))
+        mod = cpath.rsplit("::", 1)[0] + "::"
+        fns = [x for x in reg.reachable_from([cpath], follow_virtual=False) if x.startswith(mod) or x == cpath]
+        stored = set()
+        for gname in fns + ["op::Op::plain"]:
+            if cx.f.has_fn(gname):
+                for (b2, m2, k2, _v) in K.inserts_in(cx.f, cx.f.fn(gname)):
+                    stored.add(k2)
+        for gname in fns:
+            if gname in owners:
+                continue        # an apply-time function: judged above
+            gf = cx.f.fn(gname)
+            for r in K.find_reads(cx.f, gf):
+                m_ += 1
+                ok = r.key in declared or r.key in stored
+                cx.ob("R-KEY-DECLARED", "%s/%s/%s[%s]" % (c.names[0], gname, r.map, r.key), ok,
+                      "%s: key %r read by the constructor is declared or stored" % (c.names[0], r.key) if ok else
+                      "%s: the constructor (%s) reads %s[%r], which its gamut does not declare and nobody stores: the value is "
+                      "always the accessor's built-in default (for an ellipsoid: GRS80, whatever the user asked for)" % (
+                          c.names[0], gname, r.map, r.key), cx.where(gf.term(r.bb)["span"]))
+    # indexed accessors: params.ellps(k), lat(k), lon(k), x(k), y(k), k(k) read the key `<stem>_<k>` and fall back to a
+    # built-in default when it is absent
+    STEMS = {"ellps": "ellps", "lat": "lat", "lon": "lon", "x": "x", "y": "y", "k": "k"}
+    a_ = 0
+    ctor_fns = {}
+    for cpath, c in sorted(reg.ctors.items()):
+        if "pipeline" in c.names or c.gamut is None:
+            continue
+        mod = cpath.rsplit("::", 1)[0] + "::"
+        for x in reg.reachable_from([cpath], follow_virtual=False):
+            if x.startswith(mod) or x == cpath:
+                ctor_fns.setdefault(x, [])
+                if c not in ctor_fns[x]:
+                    ctor_fns[x].append(c)
+    judged_fns = dict(owners)
+    for k_, v_ in ctor_fns.items():
+        judged_fns.setdefault(k_, [])
+        for c in v_:
+            if c not in judged_fns[k_]:
+                judged_fns[k_] = judged_fns[k_] + [c]
+    for fname in sorted(judged_fns):
+        if not cx.f.has_fn(fname):
+            continue
+        gf = cx.f.fn(fname)
+        for bb, t in gf.calls():
+            cal = gf.callee(t) or ""
+            if not cal.startswith(K.PP + "::") or cal.rsplit("::", 1)[-1] not in STEMS:
+                continue
+            a = gf.arg_terms(bb)
+            if len(a) < 2 or a[1][0] != "const" or not isinstance(a[1][2], int):
+                continue
+            stem, idx = STEMS[cal.rsplit("::", 1)[-1]], a[1][2]
+            keys_ = ["%s_%d" % (stem, idx)] + (["ellps"] if stem == "ellps" and idx == 0 else [])
+            for c in judged_fns[fname]:
+                if c.gamut is None or "pipeline" in c.names:
+                    continue
+                g, flags, optional = K.gamut_guarantees(c.gamut)
+                declared = {k for (_m, k) in g} | set(flags) | {k for (_m, k) in optional} | set(K.implicit_reals(cx.f))
+                mod = c.path.rsplit("::", 1)[0] + "::"
+                stored = set()
+                for gname in reg.reachable_from([c.path], follow_virtual=False):
+                    if (gname.startswith(mod) or gname == "op::Op::plain") and cx.f.has_fn(gname):
+                        for (b2, m2, k2, _v) in K.inserts_in(cx.f, cx.f.fn(gname)):
+                            stored.add(k2)
+                a_ += 1
+                ok = any(k in declared or k in stored for k in keys_)
+                cx.ob("R-KEY-DECLARED", "%s/%s/%s(%d)" % (c.names[0], fname, stem, idx), ok,
+                      "%s: %s(%d) reads a key the constructor declares or stores" % (c.names[0], stem, idx) if ok else
+                      "%s: %s calls params.%s(%d), i.e. reads `%s`, which the gamut of %s does not declare and nobody stores: "
+                      "the accessor always returns its built-in default (for an ellipsoid: GRS80, whatever the user asked "
+                      "for)" % (c.names[0], fname, stem, idx, keys_[0], c.path), cx.where(t["span"]))
+    cx.count("R-KEY-DECLARED", "accessor_reads", a_)
+    cx.count("R-KEY-DECLARED", "constructor_reads", m_)
     cx.count("R-KEY-DECLARED", "reads", n)
 
 
